@@ -249,12 +249,12 @@ def sh_clip_exact(subj, clip):
 
 
 def line_x(cp1, cp2, s, e):
-    dcx, dcy = cp1[0] - cp2[0], cp1[1] - cp2[1]
-    dpx, dpy = s[0] - e[0], s[1] - e[1]
-    n1 = cp1[0] * cp2[1] - cp1[1] * cp2[0]
-    n2 = s[0] * e[1] - s[1] * e[0]
-    den = dcx * dpy - dcy * dpx
-    return ((n1 * dpx - n2 * dcx) / den, (n1 * dpy - n2 * dcy) / den)
+    """compute_intersection of clipping.rs (parametric along the subject segment cp1-cp2, clamped)"""
+    d1 = cross(s, e, cp1)
+    d2 = cross(s, e, cp2)
+    t = d1 / (d1 - d2)
+    t = Fr(0) if t < 0 else (Fr(1) if t > 1 else t)
+    return (cp1[0] + t * (cp2[0] - cp1[0]), cp1[1] + t * (cp2[1] - cp1[1]))
 
 
 def close_ring(l):
@@ -274,6 +274,14 @@ def collinear_family(P, Q, tol=1e-7):
                 if abs(float(cross(u, v, p))) <= tol * el * size and abs(float(cross(u, v, q))) <= tol * el * size:
                     return True
     return False
+
+
+def known_family(r):
+    """The input class of the known finding C08:sh-clip:collinear-edges: two DIFFERENT boxes, really rotated (cos and
+    sin both non-zero), with an edge of one lying on an edge line of the other.  Axis-aligned and identical boxes
+    are computed exactly by the binary64 clipper and do not belong to it."""
+    rot = all(cs[0] != 0 and cs[1] != 0 for cs in (r["csa"], r["csb"]))
+    return rot and r["va"] != r["vb"] and collinear_family(r["va"], r["vb"])
 
 
 # --------------------------------------------------------------------------------------------------
@@ -759,7 +767,7 @@ def run(chk):
         ang = lambda b: "none" if b["angle"] is None else ("zero" if b["angle"] == 0 else ("big" if abs(b["angle"]) > 6.3 else "other"))
         hist["angles=%s/%s" % (ang(r["a"]), ang(r["b"]))] += 1
         if fails:
-            failing.append((r, fails, collinear_family(r["va"], r["vb"])))
+            failing.append((r, fails, known_family(r)))
     chk.log("property oracles: %d failing pairs (%d in the collinear-edge family)" % (len(failing), sum(1 for f in failing if f[2])))
 
     # ---- model vs implementation ----
@@ -810,7 +818,7 @@ def run(chk):
             chk.broken.append("model evaluation failed: %s" % str(e)[-1500:])
     else:
         chk.broken.append("Model/Geom.vo missing: the model was not evaluated")
-    dis_known = [d for d in disagreements if collinear_family(cases[d[0]]["va"], cases[d[0]]["vb"]) and not any(s.startswith("MODEL") for s in d[1])]
+    dis_known = [d for d in disagreements if known_family(cases[d[0]]) and not any(s.startswith("MODEL") for s in d[1])]
     dis_other = [d for d in disagreements if d not in dis_known]
     chk.log("model vs implementation: %d disagreements (%d in the collinear-edge family)" % (len(disagreements), len(dis_known)))
 
@@ -842,8 +850,7 @@ def run(chk):
 
         def pred(rr):
             ff, _ = oracle(rr)
-            fam = collinear_family(rr["va"], rr["vb"])
-            return bool(ff) and fam == (key == KEY_KNOWN)
+            return bool(ff) and known_family(rr) == (key == KEY_KNOWN)
         a, b = shrink_pair(r, pred)
         rr = eval_pair(a, b) or r
         ff, info = oracle(rr)
